@@ -199,7 +199,9 @@ pub fn oneshot_encode<const NO: usize>(kk: usize, r: usize, supported: bool, lo:
     }
     let violated = !supported || !lens_ok || NO != kk;
     assert!(violated, "harness family must only contain error inputs");
-    match reed_solomon_simd::encode(kk, r, o.iter()) {
+    // (structurally empty iterator for an empty list, see oneshot_decode)
+    let out = if NO == 0 { reed_solomon_simd::encode(kk, r, core::iter::empty::<&[u8]>()) } else { reed_solomon_simd::encode(kk, r, o.iter()) };
+    match out {
         Ok(_) => panic!("one-shot encode returned Ok for an input that violates a documented precondition"),
         Err(e) => {
             let truthful = match e {
